@@ -237,8 +237,9 @@ func runCase(c driver.Case) driver.Result {
 	}
 	res := run.Seq(o)
 	defer res.Cleanup()
+	dirty := !res.Settled
 	ev := res.Rec.Events()
-	r := driver.Result{Verdict: driver.Held, Events: int64(len(ev)), Nontrivial: len(ev) > 0, Sig: name + "→" + res.Rec.TraceString()}
+	r := driver.Result{Verdict: driver.Held, Events: int64(len(ev)), Nontrivial: len(ev) > 0, Sig: name + "→" + res.Rec.TraceString(), Dirty: dirty}
 	r.Sample = map[string]string{"scripts": c.Get("scripts"), "trace": res.Rec.TraceString(), "expected": exp.String()}
 	if res.Panic != nil {
 		r.Verdict = driver.Violated
